@@ -31,6 +31,13 @@ CLAIMED["C07"] = (
     "Trusts TLC/Json, Tir.Eval as oracle on the typed universe only (Unspec elsewhere), the driver's projection; bounds: 17 slot kinds, expression depth 1-2, one fixed environment.",
     "DESIGN.md section 5, C07")
 
+CLAIMED["C11"] = (
+    "TLC enumeration of the IR term universe (MC_Wire: leaf variants x wrappers x slots) and of the Encode/Corrupt/Decode(version) machine, each term round-tripped through to_bytes/from_bytes + TLC trace validation (Trace_Wire) incl. random depth-6 terms and a seeded corruption campaign",
+    "TLC checks round-trip identity and the version gate on the model; every enumerated term and seeded random terms are encoded and decoded by the real crate and TLC validates each recorded RoundTrip/Applied/VersionGate/Garbage event "
+    "(structure, find_params/find_queries, identical application, gate outcome, outcome alphabet {ok, err} for hostile bytes).",
+    "Trusts TLC/Json, the driver conversion (the same projection on both sides of a round trip), child-process isolation for aborts; the garbage half is an outcome-alphabet check only.",
+    "DESIGN.md section 5, C11")
+
 ALL = ["C%02d" % i for i in range(1, 21)]
 
 NOT_YET = "check not built yet in this revision of /verif (planned: see DESIGN.md section 5); not claimed until its machinery exists and is quiet on the unchanged tree"
